@@ -1,6 +1,7 @@
 import PolyVerif.Lemmas.GbCompose
 import PolyVerif.Lemmas.GenbankParse
 import PolyVerif.Spec.GbRoundTrip
+import PolyVerif.Lemmas.GbLocStruct
 /-
 C03, write-then-read over the PARSER MODEL of property C01: the lines `build x` writes are one
 particular layout (`GbLayout.layout r ℓ`) of the abstract record `r` that `x` states, so that the
@@ -537,16 +538,24 @@ theorem refs_approx : ∀ (refs : List Reference) (i : Nat),
       beq_iff_eq, refs_approx rs (i + 1), and_true, hn]
     simp [toRRef]
 
-open PolyVerif.Spec.GbStrict (wfFeatureRT cacheConsistent absFeat) in
-theorem feats_approx : ∀ fs : List Feature, fs.all wfFeatureRT = true →
+open PolyVerif.Spec.GbStrict (wfFeatureRT wfFeatureLoc locProved cacheConsistent absFeat) in
+theorem feats_approx : ∀ fs : List Feature, fs.all wfFeatureRT = true → fs.all wfFeatureLoc = true →
     listApprox featApprox fs ((fs.map toRFeature).map PolyVerif.GbLayout.toFeature) = true
-  | [], _ => rfl
-  | f :: fs, h => by
-    simp only [List.all_cons, Bool.and_eq_true] at h
+  | [], _, _ => rfl
+  | f :: fs, h, h' => by
+    simp only [List.all_cons, Bool.and_eq_true] at h h'
     have hloc : locStructOk f (PolyVerif.GbLayout.toFeature (toRFeature f)) = true := by
       unfold locStructOk
       by_cases hc : f.gbkLocationString = []
-      · simp [hc]
+      · -- assembled structurally: the text is what BuildLocationString writes
+        have hp : locProved f.sequenceLocation = true := by
+          have := h'.1
+          simpa [wfFeatureLoc, hc] using this
+        have htext : (PolyVerif.GbLayout.toFeature (toRFeature f)).gbkLoc = Location.buildLoc f.sequenceLocation := by
+          simp [PolyVerif.GbLayout.toFeature, toRFeature, absFeat, hc]
+        obtain ⟨q, hq, hb⟩ := PolyVerif.Lemmas.GbLocStruct.parse_buildLoc_struct _ hp
+        rw [htext, hq]
+        exact hb
       · have hw := h.1
         simp only [wfFeatureRT, Bool.and_eq_true, bne_iff_ne, ne_eq, hc, not_false_eq_true, if_true] at hw
         have hcc := hw.2
@@ -554,9 +563,8 @@ theorem feats_approx : ∀ fs : List Feature, fs.all wfFeatureRT = true →
         have htext : (PolyVerif.GbLayout.toFeature (toRFeature f)).gbkLoc = f.gbkLocationString := by
           simp [PolyVerif.GbLayout.toFeature, toRFeature, absFeat, hc]
         rw [htext]
-        simp only [Bool.or_eq_true, beq_iff_eq, hc, false_or]
         exact hcc
-    simp only [List.map_cons, listApprox, Bool.and_eq_true, feats_approx fs h.2, and_true]
+    simp only [List.map_cons, listApprox, Bool.and_eq_true, feats_approx fs h.2 h'.2, and_true]
     simp only [featApprox, Bool.and_eq_true, hloc, and_true]
     simp [toRFeature, PolyVerif.GbLayout.toFeature]
 
